@@ -50,3 +50,11 @@ Print pf_start.
 Definition pf_ops := Eval vm_compute in
   failing (fun c : Z * bool * pl * list (xop * out * pl) => let '(max, allow, l0, steps) := c in c26_steps_pf max allow l0 steps) cases_ops.
 Print pf_ops.
+
+(* conc (run-time check on the implementation, no model): after overlapping
+   AddPeers / AddPeer calls from several goroutines the list holds at most Max
+   valid addresses, and it never held more while they ran (sampled) *)
+Definition pf_conc := Eval vm_compute in
+  failing (fun c : Z * pl * Z => let '(max, d, seen) := c in
+             c26_list_ok max false d && (plen d <=? max) && (seen <=? max)) cases_conc.
+Print pf_conc.
